@@ -302,3 +302,8 @@ def check(run):
     r19c(run)
     r19d(run)
     r19e(run)
+    # shared with C16: the registry memo is the one piece of state a failed parse may leave behind - it must hold
+    # positive answers only (what a detector says about a class can change: @utype.dataclass sets __parser__ in place)
+    from . import c16
+    run.rules_run.append("R16d")
+    c16.r16d(run, c16.registry_class(run))
